@@ -1094,7 +1094,23 @@ pub fn explore(u: &Uni, lite: bool, alpha: &[Hostile], max_hostile: usize, rep: 
         // expand: replay each frontier history once to learn its enabled events
         let results = par_map(&frontier, workers(), |_, h| {
             let mut r = rep.child();
-            let Some((s, ok)) = replay(u, lite, h, &mut r) else { return (r, vec![]) };
+            // every lock request of the handlers run for this history is recorded (cfg-guarded shim):
+            // a handler that asks for a lock while it holds one that ranks later can be parked for
+            // good by the task that takes them in the documented order -- it would never return
+            saito_core::core::verif_lock::trace_start();
+            let Some((s, ok)) = replay(u, lite, h, &mut r) else {
+                let _ = saito_core::core::verif_lock::trace_take();
+                return (r, vec![]);
+            };
+            for ev in saito_core::core::verif_lock::trace_take() {
+                if ev.rank == 0 {
+                    continue;
+                }
+                if let Some((hr, _, hf)) = ev.held.iter().find(|(hr, _, _)| *hr != 0 && *hr > ev.rank) {
+                    let file = ev.file.rsplit('/').next().unwrap_or(ev.file);
+                    r.violate(&format!("handler-requests-a-lock-out-of-order/{}", file), format!("{}:{} asks for the lock of rank {} while holding rank {} (taken in {}) in a handler reached by {:?}", ev.file, ev.line, ev.rank, hr, hf, h.iter().rev().take(3).rev().collect::<Vec<_>>()), json!({"file": ev.file, "line": ev.line, "rank": ev.rank, "held_rank": hr}));
+                }
+            }
             if !ok {
                 return (r, vec![]);
             }
